@@ -185,6 +185,7 @@ func RunC01(c *Ctx) {
 			}
 		}
 	})
+	operandMatrix(c, func(entry, input string) { CheckC01(c, entry, input) })
 }
 
 // ---------------------------------------------------------------------------
